@@ -5,7 +5,7 @@
 The extraction is purely syntactic.  It keeps every statement, expression, loop, branch, call, attribute and index exactly as
 written, and DROPS / REWRITES only the following (reported per file in `Stripped.dropped`):
 
-  D1  `cimport` lines (a relative `from .x cimport (A, b_t)` becomes `from .x import (A, b_t)`), `cnp.import_array()`
+  D1  `ctypedef` lines, `cimport` lines (a relative `from .x cimport (A, b_t)` becomes `from .x import (A, b_t)`), `cnp.import_array()`
   D2  `cdef class A(B):`                               ->  `class A(B):`
   D3  class-level C attribute declarations `cdef T* name` / `cdef T name`          (dropped; the names are recorded)
   D4  C signatures: `cdef T f(self, const T[:, ::1] y, T* p, U q=1) except -1 nogil:`  ->  `def f(self, y, p, q=1):`
@@ -112,6 +112,11 @@ def strip(src):
                 dropped.append("D1 " + " ".join(txt.split()))
             i = j
             continue
+        if re.match(r"^ctypedef\b", s):
+            out.append("")
+            dropped.append("D1 " + s)
+            i += 1
+            continue
         if s == "cnp.import_array()":
             out.append("")
             dropped.append("D1 cnp.import_array()")
@@ -208,8 +213,10 @@ def _default_returns(lines, dropped):
                     break
             body = [(q, res[q]) for q in range(k + 1, end) if res[q].strip() and not res[q].lstrip().startswith("#")]
             bind = ind + 4
-            last_q, last = body[-1]
-            if not (last.strip().startswith("return") and (len(last) - len(last.lstrip())) == bind):
+            last_q = body[-1][0]
+            stmts = [t for _, t in body if (len(t) - len(t.lstrip())) == bind]       # statements of the body (a statement may span lines)
+            last = stmts[-1] if stmts else ""
+            if not last.strip().startswith("return"):
                 res.insert(last_q + 1, " " * bind + "return 0")
                 dropped.append("D10 %s: final `return 0`" % res[k].strip())
         k += 1
